@@ -5,8 +5,10 @@ use std::io::{BufRead, Write};
 
 mod c02;
 mod c04;
+mod agentkit;
 mod c08;
 mod c09;
+mod c10;
 mod c18;
 pub mod util;
 
@@ -52,6 +54,7 @@ fn run_lines() {
             "book" => c02::book(&mut t),
             "needs" => c04::needs(&mut t),
             "members" => c18::members(&mut t),
+            "ingest" => c10::ingest(&mut t),
             "wire" => c09::wire(&mut t),
             "decode" => c09::decode(&mut t),
             "pack" => c09::pack(&mut t),
